@@ -120,7 +120,12 @@ def check_property(pid: str, spec: dict, root: str, tier: str, seed: int,
         if selftest is not None:
             st = selftest(pid, spec, root, tier)
             if st.get("failed"):
-                raise AnalysisError("checker self-test failed: " + "; ".join(st["failed"][:5]))
+                if any(not o.ok for o in obs):
+                    # the tree itself violates a rule: the violation is the verdict; variants of a violating
+                    # tree can mask each other, so their outcome is reported, not enforced
+                    print(f"NOTE property={pid} self-test variants disturbed by the violation(s) below: " + "; ".join(st["failed"][:3])[:300])
+                else:
+                    raise AnalysisError("checker self-test failed: " + "; ".join(st["failed"][:5]))
     except AnalysisError as e:
         print(f"ANALYSIS-ERROR property={pid} {e}")
         return 2
